@@ -581,6 +581,48 @@ func scenC05Pub(r *Run) {
 			return
 		}
 	}
+	// 1a. a crowd: many different URLs fetched at the same moment, each redirected once (a busy
+	// start-up with several feeds, a long thread). Some of them stall. Every fetch ends within its
+	// own bound: no fetch waits for a resource that another fetch in the same position holds.
+	if t.Chance(1, 10) {
+		crowd := 20 + t.Draw(45)
+		stalled := map[int]bool{}
+		for i := 0; i < crowd; i++ {
+			from := fmt.Sprintf("https://%s/crowd/%d", host, i)
+			to := fmt.Sprintf("https://%s/d/crowd/%d", host, i)
+			f.ServeRaw(from, Redirect(302, to))
+			f.Serve(to, Doc{"id": to, "type": "Note", "name": "T5x"})
+			if t.Chance(1, 8) {
+				stalled[i] = true
+				r.Net.TargetFault[host+fmt.Sprintf("|/d/crowd/%d", i)] = Fault{Kind: FStallAfterRequest}
+			}
+		}
+		var ctasks []*Task
+		cerrs := make([]error, crowd)
+		for i := 0; i < crowd; i++ {
+			i := i
+			ctasks = append(ctasks, r.Spawn(fmt.Sprintf("crowd%d", i), func() {
+				_, _, cerrs[i] = client.FetchURL(mustURL(fmt.Sprintf("https://%s/crowd/%d", host, i)))
+			}))
+		}
+		cbound := 2*bound + time.Second // two hops
+		r.Drive(r.AllTasksDone, r.S.Now()+3*cbound+time.Minute, 200000)
+		r.S.Probe("c05_crowd_of_redirected_fetches")
+		for i, tk := range ctasks {
+			if !tk.Done {
+				r.Violate("C05", "M-time", "hang/crowd", fmt.Sprintf("%d different URLs fetched at once, each redirected once (%d of the targets stall): fetch %d is still blocked at %s; pending: %v", crowd, len(stalled), i, r.S.Now(), headOf(r.S.PendingKeys(), 6)))
+				return
+			}
+			if took := tk.End - tk.Start; took > cbound {
+				r.Violate("C05", "M-time", "late/crowd", fmt.Sprintf("%d different URLs fetched at once: fetch %d got its answer after %s, bound %s", crowd, i, took, cbound))
+				return
+			}
+			if stalled[i] && cerrs[i] == nil {
+				r.Violate("C05", "partial", "accepted/crowd", fmt.Sprintf("fetch %d of the crowd got a document from a server that never answered", i))
+				return
+			}
+		}
+	}
 	// 1b. a post whose secondary fetches (authors, audience, parent, replies) are broken must still
 	// be built in time, with the broken parts as error items; its replies must be harvestable
 	if t.Chance(2, 3) {
